@@ -57,14 +57,22 @@ def main():
         if a.tests:
             base = json.load(open('/root/.vp/BASELINE.json'))['stable_pass']
             junit = os.path.join(tmp, 'j.xml')
-            subprocess.run(['/venv/bin/python', '-m', 'pytest', '-q', '-p', 'no:cacheprovider', '--timeout=900',
-                            '--continue-on-collection-errors', '--junitxml=' + junit], cwd=dst,
-                           capture_output=True, text=True, env=dict(os.environ, PYTHONPATH=dst))
+            p = subprocess.Popen(['/venv/bin/python', '-m', 'pytest', '-q', '-p', 'no:cacheprovider', '--timeout=120',
+                                  '--continue-on-collection-errors', '--junitxml=' + junit], cwd=dst,
+                                 stdout=subprocess.DEVNULL, stderr=subprocess.DEVNULL,
+                                 env=dict(os.environ, PYTHONPATH=dst), start_new_session=True)
+            try:
+                p.wait(timeout=400)
+            except subprocess.TimeoutExpired:
+                import signal
+                os.killpg(p.pid, signal.SIGKILL)
+                print('baseline tests: HANG (killed after 400 s)')
             import xml.etree.ElementTree as ET
             ok = set()
-            for tc in ET.parse(junit).getroot().iter('testcase'):
-                if not list(tc):
-                    ok.add('%s::%s' % (tc.get('classname'), tc.get('name')))
+            if os.path.exists(junit):
+                for tc in ET.parse(junit).getroot().iter('testcase'):
+                    if not list(tc):
+                        ok.add('%s::%s' % (tc.get('classname'), tc.get('name')))
             missing = [t for t in base if t not in ok]
             print('baseline tests: %d/%d pass%s' % (len(base) - len(missing), len(base),
                                                     '' if not missing else ' MISSING ' + str(missing[:3])))
